@@ -46,7 +46,9 @@ Inductive err :=
 | EPathNotFound | EPathExists | EPathMismatch
 | ETooBig | ENeedXattrs | ENeedBody | ENilXattr
 | EDeleteXattrOnInsert | EDeleteXattrOnTombstone | EUpsertAndDelete
-| EXattrMissing | EClosed | EOther.
+| EXattrMissing | EClosed | EOther
+| EAmbiguous.   (* model-only: two xattr arguments fail for different reasons and Go's map iteration
+                   order decides which error is reported *)
 
 Inductive resp :=
 | ROk
@@ -507,6 +509,34 @@ Fixpoint apply_xattrs (xs : list (string * option string)) (m : option (list (st
       end
   end.
 
+(* the outcome of one entry taken alone (entries have distinct names, so they do not interact) *)
+Definition entry_err (kv : string * option string) (m : option (list (string * string)))
+           (ms : list macro) (cas : N) (body : option string) : option err :=
+  match apply_xattrs [kv] m ms cas body with inr e => Some e | inl _ => None end.
+
+Definition err_eqb (a b : err) : bool :=
+  match a, b with
+  | EMissing, EMissing | ECasMismatch, ECasMismatch | EKeyExists, EKeyExists
+  | EPathNotFound, EPathNotFound | EPathExists, EPathExists | EPathMismatch, EPathMismatch
+  | ETooBig, ETooBig | ENeedXattrs, ENeedXattrs | ENeedBody, ENeedBody | ENilXattr, ENilXattr
+  | EDeleteXattrOnInsert, EDeleteXattrOnInsert | EDeleteXattrOnTombstone, EDeleteXattrOnTombstone
+  | EUpsertAndDelete, EUpsertAndDelete | EXattrMissing, EXattrMissing | EClosed, EClosed
+  | EOther, EOther | EAmbiguous, EAmbiguous => true
+  | _, _ => false
+  end.
+
+Definition apply_xattrs_any_order (xs : list (string * option string)) (m : option (list (string * string)))
+           (ms : list macro) (cas : N) (body : option string) : (option (list (string * string))) + err :=
+  match apply_xattrs xs m ms cas body with
+  | inl r => inl r
+  | inr e =>
+      if existsb (fun kv => match entry_err kv m ms cas body with
+                            | Some e' => negb (err_eqb e e')
+                            | None => false
+                            end) xs
+      then inr EAmbiguous else inr e
+  end.
+
 Definition wwx (ctx : kctx) (val : bodyarg) (xs : list (string * option string)) (ifcas : option N)
            (exp : option N) (o : wxo) (ms : list macro) (r : option row) : kres :=
   (* validation before the transaction *)
@@ -543,7 +573,7 @@ Definition wwx (ctx : kctx) (val : bodyarg) (xs : list (string * option string))
       | BDelete => (None, false, option_map (filter (fun kv => is_system_name (fst kv))) m0)
       | BSet v => (Some v, true, m0)
       end in
-    match apply_xattrs xs m1 ms c value1 with
+    match apply_xattrs_any_order xs m1 ms c value1 with
     | inr e => kfail 1 e r
     | inl m2 =>
         let x := xmarshal m2 in
@@ -563,8 +593,9 @@ Definition dup_name (xs : list (string * option string)) (dels : list string) : 
 Definition has_nil (xs : list (string * option string)) : bool :=
   existsb (fun kv => is_none (snd kv)) xs.
 
+(* xattrsToDelete entries land in a Go map keyed by name: duplicates collapse *)
 Definition dels_of (d : option (list string)) : list (string * option string) :=
-  map (fun k => (k, None)) (match d with Some l => l | None => [] end).
+  map (fun k => (k, None)) (nodup string_dec (match d with Some l => l | None => [] end)).
 
 Definition do_setxattrs (ctx : kctx) (xs : list (string * option string)) (r : option row) : kres :=
   (* SetXattrs: a nil value is a nil payload, i.e. a deletion *)
